@@ -413,10 +413,15 @@ impl Annotated<Schema> {
                         )
                     });
 
-                collect_type_parameters(type_parameters, &data_type.typed_parameters, args);
+                // NOTE: Instantiate generics in a scope of their own. Otherwise, a nested
+                // instantiation of the same data-type (e.g. Foo<Foo<Int>>) overwrites the
+                // caller's bindings and its remaining fields resolve to the wrong type.
+                let mut type_parameters = type_parameters.clone();
+
+                collect_type_parameters(&mut type_parameters, &data_type.typed_parameters, args);
 
                 let annotated = Schema::Data(
-                    Data::from_data_type(&data_type, modules, type_parameters, definitions)
+                    Data::from_data_type(&data_type, modules, &mut type_parameters, definitions)
                         .map_err(|e| e.backtrack(type_info))?,
                 );
 
